@@ -2864,6 +2864,14 @@ class State:
                 ):
                     player_indices.append(i)
 
+            if not player_indices:
+                if pots:
+                    player_indices.extend(pots[-1].player_indices)
+                else:
+                    player_indices.extend(
+                        filter(self.statuses.__getitem__, self.player_indices),
+                    )
+
             while pots and pots[-1].player_indices == tuple(player_indices):
                 amount += pots.pop().amount
 
